@@ -21,4 +21,16 @@ for d in sorted(os.listdir(core.BUILD)):
     if d.startswith("x") and os.path.isdir(os.path.join(core.BUILD, d)):
         print("driver", d, core.build_driver(d))
 PY
+# 4. capture the Print Assumptions output of every Props file once (kept beside the build, keyed by the .vo hash;
+#    a check recompiles its Props file only when that .vo changed)
+/venv/bin/python -W ignore - <<'PY'
+import glob, os, sys
+from concurrent.futures import ThreadPoolExecutor
+sys.path.insert(0, os.getcwd())
+from harness import core
+props = sorted(os.path.basename(f)[:-2] for f in glob.glob(os.path.join(core.COQ, "Props", "C[0-9][0-9].v")))
+with ThreadPoolExecutor(8) as ex:
+    for pid, (ok, th, ax, _) in zip(props, ex.map(core.props_assumptions, props)):
+        print("assumptions", pid, ok, len(th), "theorems", sum(1 for v in ax.values() if v == "closed"), "closed")
+PY
 echo "setup done"
